@@ -19,7 +19,7 @@ DECIDES = ("Decided: structural facts about the four ERROR_REGEX patterns on the
            "text that findall receives, grouping by file), check_oracle consulting crash_msg before the map, that the "
            "mandatory part of each pattern (literals and classes, optional parts relaxed - an over-approximation of "
            "re.search computed on the regex AST) admits the compiler's minimal diagnostics, and the "
-           "agreement between the path stored as oracle key and the compiler's input glob.")
+           "agreement between the path stored as oracle key and the compiler's input glob. Also: every marker test on the compiler's output is re.search; the output is analysed on every call of check_oracle and is the only source of the diagnostics map.")
 NOT_DECIDED = "exactness on every possible compiler output (needs the compilers' output grammar)."
 
 LANGS = ["java", "kotlin", "groovy", "scala"]
